@@ -770,3 +770,11 @@ DOM_FIX = {
     "nonzero": [("tanh", None), ("square", None), ("add", 0.5)],
     "nz_small": [("tanh", None), ("square", None), ("multiply", 2.0), ("add", 0.5)],
 }
+
+
+_reg(
+    "add_dtype",
+    2,
+    lambda mg, a, p, kw: mg.add(a[0], a[1], dtype=p["dtype"], **kw),
+    lambda a, p: np.add(a[0], a[1], dtype=p["dtype"]),
+)
